@@ -1,7 +1,7 @@
 import BppModel.Text.StrLite
 /-
 Model of the number recognisers and conversions of TextTools
-(src/Bpp/Text/TextTools.cpp:133-222, TextTools.h:113-150), as repaired by the commit
+(src/Bpp/Text/TextTools.cpp:133-232, TextTools.h:113-150), as repaired by the commit
 "fix: isDecimalNumber/isDecimalInteger require at least one mantissa digit".
 The code as found is kept below (`…Old`) for the witness theorems.
 
@@ -15,10 +15,10 @@ open Bpp.Text
 
 /-! ## recognisers (repaired code) -/
 
-/-- loop of `isDecimalNumber` (TextTools.cpp:146-178) from index `i` on; the list is `s[i..]`,
+/-- loop of `isDecimalNumber` (TextTools.cpp:146-173) from index `i` on; the list is `s[i..]`,
 `sep`/`sciN`/`dig` are `sepCount`/`sciCount`/`digitCount`. -/
 def decLoop (dec sci : Char) (sep sciN dig : Nat) : Str → Bool
-  | [] => decide (0 < dig)                                   -- :178 return digitCount > 0
+  | [] => decide (0 < dig)                                   -- :173 return digitCount > 0
   | c :: rest =>
     if c == dec then                                          -- :149
       if 1 < sep + 1 || 1 < sciN then false else decLoop dec sci (sep + 1) sciN dig rest
@@ -44,7 +44,7 @@ def isDecimalNumber (dec sci : Char) (s : Str) : Bool :=
     | '-' :: r => decLoop dec sci 0 0 0 r
     | _ => decLoop dec sci 0 0 0 s
 
-/-- loop of `isDecimalInteger` (TextTools.cpp:190-216) -/
+/-- loop of `isDecimalInteger` (TextTools.cpp:186-213) -/
 def intLoop (sci : Char) (sciN dig : Nat) : Str → Bool
   | [] => decide (0 < dig)
   | c :: rest =>
@@ -131,11 +131,11 @@ def streamInt (s : Str) : Int :=
   | '+' :: r => streamIntUnsigned false r
   | _ => streamIntUnsigned false s
 
-/-- TextTools::toDouble (TextTools.cpp:229): `none` = Exception -/
+/-- TextTools::toDouble (TextTools.cpp:227-232): `none` = Exception -/
 def toDouble (dec sci : Char) (s : Str) : Option Rat :=
   if isDecimalNumber dec sci s then some (streamDouble s) else none
 
-/-- TextTools::toInt (TextTools.cpp:220): `none` = Exception -/
+/-- TextTools::toInt (TextTools.cpp:218-223): `none` = Exception -/
 def toInt (sci : Char) (s : Str) : Option Int :=
   if isDecimalInteger sci s then some (streamInt s) else none
 
